@@ -70,7 +70,7 @@ struct Slot {
    vh::Rng rng{1};
    void reset(uint64_t seed) { arrive.store(P_NONE, std::memory_order_relaxed); go.store(0, std::memory_order_relaxed); path.clear(); rng = vh::Rng(seed); }
 };
-static const int MAXT = 17;
+static const int MAXT = 17;   // threads 1..16
 static Slot g_slots[MAXT + 2];
 static Slot& g_creator = g_slots[MAXT];
 static Slot& g_thread = g_slots[MAXT + 1];
@@ -160,25 +160,13 @@ private:
    int mPayload[8];
 };
 
-static volatile long g_sink;
+static std::atomic<long> g_sink{0};
 static std::atomic<int> g_ready{0}, g_startFlag{0};
 
-static void sglWorker(int t, bool barrier) {
-   Slot* sl = &g_slots[t];
-   tl_slot = sl;
-   if (barrier) {                        // free-running: all threads leave the barrier together (relaxed: no ordering)
-      g_ready.fetch_add(1, std::memory_order_relaxed);
-      unsigned n = 0;
-      while (g_startFlag.load(std::memory_order_relaxed) == 0) { if (++n > 2000) sched_yield(); }
-      unsigned k = static_cast<unsigned>(sl->rng.below(200));
-      for (volatile unsigned i = 0; i < k; ++i) {}
-   }
-   TestSgl& r = TestSgl::instance(t);
-   const int id = r.id(), a = r.arg();   // first use of the reference: plain reads of the object
-   g_sink = r.sum();
-   const uint64_t extra = (static_cast<uint64_t>(id & 0xffffff) << 16) | (static_cast<uint64_t>(a & 0xff) << 8);
-   if (g_forced) arriveAt(sl, P_DONE, extra);
-   else { sl->path.push_back(P_DONE); sl->arrive.store(extra | P_DONE, std::memory_order_relaxed); }
+static void sglOnce(int t, struct Slot* sl);
+static void sglWorker(int t) {
+   tl_slot = &g_slots[t];
+   sglOnce(t, tl_slot);
 }
 
 struct SglRun {
@@ -186,23 +174,23 @@ struct SglRun {
    std::vector<std::thread> thr;
    std::vector<int> seq;
    bool active = false, stuck = false;
-   void spawn(uint64_t seed, bool barrier) {
+   void spawn(uint64_t seed) {
       g_abandon.store(0, std::memory_order_relaxed);
       g_ready.store(0, std::memory_order_relaxed); g_startFlag.store(0, std::memory_order_relaxed);
       for (int t = 1; t <= n; ++t) g_slots[t].reset(seed * 131 + static_cast<uint64_t>(t));
       thr.clear();
-      for (int t = 1; t <= n; ++t) thr.emplace_back(sglWorker, t, barrier);
+      for (int t = 1; t <= n; ++t) thr.emplace_back(sglWorker, t);
       seq.assign(static_cast<size_t>(n) + 1, 0);
    }
    void joinAll() { for (auto& th : thr) if (th.joinable()) th.join(); thr.clear(); }
    void abandon() { g_abandon.store(1, std::memory_order_relaxed); joinAll(); }
-   void start(int k, uint64_t seed, bool barrier) {
+   void start(int k, uint64_t seed) {
       finish();
       TestSgl::reset();
       g_ctors.store(0, std::memory_order_relaxed); g_dtors.store(0, std::memory_order_relaxed);
       n = k; active = true; stuck = false;
       vj::Line().str("e", "Reset").num("n", n).emit();
-      spawn(seed, barrier);
+      spawn(seed);
    }
    void finish() {
       if (!active) return;
@@ -229,23 +217,70 @@ struct SglRun {
       stuck = true;
       abandon();
    }
-   void resetAll(uint64_t seed, bool barrier) {
+   void resetAll(uint64_t seed) {
       if (stuck) return;
       abandon();                          // in a maximal behaviour everybody is done already
       TestSgl::reset();
       vj::Line().str("e", "ResetAll").num("dtors", g_dtors.load(std::memory_order_relaxed)).emit();
-      spawn(seed, barrier);
+      spawn(seed);
    }
 };
 
-static void emitRound(SglRun& run) {
-   // free-running epoch: let everybody go, join, report what each thread saw
-   unsigned n = 0;
-   while (g_ready.load(std::memory_order_relaxed) < run.n) { if (++n > 200) sched_yield(); }
-   g_startFlag.store(1, std::memory_order_relaxed);
-   run.joinAll();
+// ---- free-running epochs: a pool of threads (created once: thread creation is slow under ThreadSanitizer).
+// Main -> worker (start of an epoch) and worker -> main (end of an epoch) are release/acquire pairs: they
+// order the harness's own bookkeeping and reset() against the epochs, exactly what joining and re-creating
+// the threads would do.  Between the workers of one epoch there is only the relaxed spin barrier.
+struct Pool {
+   std::thread thr[MAXT];
+   std::atomic<uint64_t> cmd[MAXT], done[MAXT];
+   std::atomic<int> quit{0};
+   int size = 0;
+};
+static Pool g_pool;
+
+static void sglOnce(int t, Slot* sl) {
+   TestSgl& r = TestSgl::instance(t);
+   const int id = r.id(), a = r.arg();   // first use of the reference: plain reads of the object
+   g_sink.store(r.sum(), std::memory_order_relaxed);
+   const uint64_t extra = (static_cast<uint64_t>(id & 0xffffff) << 16) | (static_cast<uint64_t>(a & 0xff) << 8);
+   if (g_forced) arriveAt(sl, P_DONE, extra);
+   else { sl->path.push_back(P_DONE); sl->arrive.store(extra | P_DONE, std::memory_order_relaxed); }
+}
+
+static void poolWorker(int t) {
+   Slot* sl = &g_slots[t];
+   tl_slot = sl;
+   uint64_t last = 0;
+   for (;;) {
+      uint64_t ticket; unsigned n = 0;
+      while ((ticket = g_pool.cmd[t].load(std::memory_order_acquire)) == last) {
+         if (g_pool.quit.load(std::memory_order_relaxed)) return;
+         if (++n > 200) sched_yield();
+      }
+      last = ticket;
+      g_ready.fetch_add(1, std::memory_order_relaxed);       // all threads leave the barrier together
+      n = 0;
+      while (g_startFlag.load(std::memory_order_relaxed) != static_cast<int>(ticket)) { if (++n > 5000) sched_yield(); }
+      unsigned k = static_cast<unsigned>(sl->rng.below(200));
+      for (volatile unsigned i = 0; i < k; ++i) {}
+      sglOnce(t, sl);
+      g_pool.done[t].store(ticket, std::memory_order_release);
+   }
+}
+
+static void poolEpoch(int n, uint64_t ticket, uint64_t seed) {
+   g_ready.store(0, std::memory_order_relaxed);
+   for (int t = 1; t <= n; ++t) {
+      g_slots[t].reset(seed * 131 + static_cast<uint64_t>(t));
+      if (t > g_pool.size) { g_pool.cmd[t].store(0); g_pool.done[t].store(0); g_pool.thr[t] = std::thread(poolWorker, t); g_pool.size = t; }
+      g_pool.cmd[t].store(ticket, std::memory_order_release);
+   }
+   unsigned k = 0;
+   while (g_ready.load(std::memory_order_relaxed) < n) { if (++k > 200) sched_yield(); }
+   g_startFlag.store(static_cast<int>(ticket), std::memory_order_relaxed);
+   for (int t = 1; t <= n; ++t) { k = 0; while (g_pool.done[t].load(std::memory_order_acquire) != ticket) { if (++k > 200) sched_yield(); } }
    std::string rets = "[", args = "[", paths = "[";
-   for (int t = 1; t <= run.n; ++t) {
+   for (int t = 1; t <= n; ++t) {
       const uint64_t w = g_slots[t].arrive.load(std::memory_order_relaxed);
       if (t > 1) { rets += ","; args += ","; paths += ","; }
       rets += std::to_string((w >> 16) & 0xffffff);
@@ -268,8 +303,8 @@ static int sglScript(const char* file) {
       if (line.empty()) continue;
       vj::Value a = vj::parse(line);
       const std::string& nm = a["n"].str();
-      if (nm == "Reset") { if (run.stuck && ++stucks >= 3) break; run.start(static_cast<int>(a["N"].num(2)), ++k, false); }
-      else if (nm == "ResetAll") run.resetAll(++k, false);
+      if (nm == "Reset") { if (run.stuck && ++stucks >= 3) break; run.start(static_cast<int>(a["N"].num(2)), ++k); }
+      else if (nm == "ResetAll") run.resetAll(++k);
       else run.step(static_cast<int>(a["t"].num()));
    }
    run.finish();
@@ -281,17 +316,24 @@ static int sglScript(const char* file) {
 static int sglRandom(uint64_t seed, long cases) {
    g_forced = false;
    vh::Rng rng(seed);
-   SglRun run;
+   uint64_t ticket = 0;
    for (long c = 0; c < cases; ++c) {
       const int n = static_cast<int>(c % 5 == 0 ? 16 : rng.range(2, 16));
       const int epochs = static_cast<int>(rng.range(1, 3));
-      run.start(n, rng.next(), true);
+      TestSgl::reset();
+      g_ctors.store(0, std::memory_order_relaxed); g_dtors.store(0, std::memory_order_relaxed);
+      vj::Line().str("e", "Reset").num("n", n).emit();
       for (int e = 0; e < epochs; ++e) {
-         emitRound(run);
-         if (e + 1 < epochs) run.resetAll(rng.next(), true);
+         poolEpoch(n, ++ticket, rng.next());
+         if (e + 1 < epochs) {
+            TestSgl::reset();
+            vj::Line().str("e", "ResetAll").num("dtors", g_dtors.load(std::memory_order_relaxed)).emit();
+         }
       }
-      run.finish();
+      emitRaceIfAny();
    }
+   g_pool.quit.store(1, std::memory_order_relaxed);
+   for (int t = 1; t <= g_pool.size; ++t) g_pool.thr[t].join();
    TestSgl::reset();
    return 0;
 }
